@@ -74,6 +74,7 @@ type Node struct {
 
 	lmu   sync.Mutex
 	res   *portres.Port
+	black func() // ends the black hole (see Blackhole)
 	ln    net.Listener
 	conns map[*nodeConn]struct{}
 	up    bool
@@ -154,6 +155,10 @@ func (w *World) Close() {
 	for _, n := range nodes {
 		n.Stop()
 		n.lmu.Lock()
+		if n.black != nil {
+			n.black()
+			n.black = nil
+		}
 		if n.res != nil {
 			n.res.Release()
 			n.res = nil
@@ -510,6 +515,10 @@ func (n *Node) Start() error {
 	if n.up {
 		return nil
 	}
+	if n.black != nil {
+		n.black()
+		n.black = nil
+	}
 	if n.res == nil {
 		// the port stays reserved for this node while it is stopped (see package portres)
 		r, err := portres.Reserve()
@@ -553,6 +562,22 @@ func (n *Node) Stop() {
 	for c := range conns {
 		c.c.Close()
 	}
+}
+
+// Blackhole stops the node and makes connects to its address hang (time out) instead of being refused, until Start.
+func (n *Node) Blackhole() error {
+	n.Stop()
+	n.lmu.Lock()
+	defer n.lmu.Unlock()
+	if n.black != nil || n.res == nil {
+		return nil
+	}
+	end, err := n.res.Blackhole()
+	if err != nil {
+		return err
+	}
+	n.black = end
+	return nil
 }
 
 // Up reports whether the node listens.
